@@ -41,7 +41,15 @@ What is proved here (about `Model/Sched.lean`, a literal port of `scheduler.rs`,
   memory (`Model/SchedMem.lean`); what remains true: `C11_wasm_queue_partial` (queue logic, handles assumed stable) and
   `C11_wasm_mem_slot_consistent_partial` (memory included, programs whose `j`-th `@` of every body names one fixed function).
 
-Not proved (exercised by the correspondence only): `BinaryHeap`/`mpsc` themselves, closure retention
+* the heap itself: `C11_heap_push_invariant`, `C11_heap_pop_invariant`, `C11_heap_multiset`, `C11_heap_pop_min`,
+  `C11_heap_refines_priority_queue` (+ `C11_heap_pop_keys_eq_sorted_queue`, `C11_heap_eq_sorted_queue_of_total_order`,
+  `C11_heap_tie_order_witness`): the literal port of `BinaryHeap::push`/`pop` is a priority queue ordered by `when`;
+  `C11_binary_heap_meets_spec` and the `…_on_binary_heap` corollaries restate every theorem above for the scheduler
+  loops with that port inside (`Vm.runH stdHeap`, `W.runH stdHeap`, `M.run stdHeap`), with no oracle and no hypothesis
+  about the heap.
+
+Not proved (exercised by the correspondence only): that the port IS what `std::collections::BinaryHeap` does (exact pop
+order compared on every handle-level history), `mpsc` FIFO, closure retention
 (`resolve_closure`/`execute_closure`), the `f64 as u64` truncation (the driver uses `Float.toUInt64`, compared against
 the real code on fractional / negative / NaN / huge times), the compiler's translation of `@`.
 -/
